@@ -620,7 +620,8 @@ impl Compressor for HybridCompressor {
         }
 
         let mut best_result = data.to_vec();
-        let mut best_algorithm = 0u8;
+        // tag of the raw fallback: one past the last component compressor
+        let mut best_algorithm = self.compressors.len() as u8;
 
         // Try each compressor and pick the best result
         for (i, compressor) in self.compressors.iter().enumerate() {
@@ -645,6 +646,11 @@ impl Compressor for HybridCompressor {
 
         let algorithm_id = data[0] as usize;
         let compressed_data = &data[1..];
+
+        if algorithm_id == self.compressors.len() {
+            // raw fallback: no component shrank the data
+            return Ok(compressed_data.to_vec());
+        }
 
         if algorithm_id >= self.compressors.len() {
             return Err(ZiporaError::invalid_data(
